@@ -96,9 +96,38 @@ def build_harness(race=False):
     return out
 
 
+class HarnessCrash(Exception):
+    """The driver process died with a Go panic / fatal error whose stack runs through the library under test: the
+    code under test took its process down (that is an observation, not a failure of the machinery)."""
+    def __init__(self, head, frame, current):
+        Exception.__init__(self, head)
+        self.head, self.frame, self.current = head, frame, current
+
+
+def _crash_of_code_under_test(stderr):
+    m = re.search(r"^(fatal error: .*|panic: .*|runtime: goroutine stack exceeds.*)$", stderr, re.M)
+    if not m:
+        return None
+    # the goroutine that crashed: the first one listed as running; its innermost frames outside the Go runtime
+    # must belong to the library (a crash in the harness's own code is a failure of the machinery)
+    g = re.search(r"^goroutine \d+ [^\n]*\[running[^\n]*\]:\n((?:.+\n)+)", stderr[m.start():], re.M)
+    if not g:
+        return None
+    frames = [ln.strip() for ln in g.group(1).splitlines() if ln and not ln.startswith("\t")]
+    frames = [f for f in frames if not re.match(r"^(runtime\.|panic\(|testing\.|reflect\.|sync\.|\[)", f)]
+    if not frames or "github.com/hprose/hprose-golang/v3/" not in frames[0]:
+        return None
+    f = re.search(r"github\.com/hprose/hprose-golang/v3/(.+?)\((?:0x|\{|\.\.\.|\)|$)", frames[0])
+    return m.group(1)[:200], (f.group(1) if f else frames[0])[:120]
+
+
 def run_harness(binary, args, timeout=1800, env_extra=None, check=True):
     env = goenv()
     env["VERIF_REPO"] = REPO
+    current = None
+    if "-out" in args:
+        current = args[args.index("-out") + 1] + ".current"
+        env["VH_CURRENT"] = current
     if env_extra:
         env.update(env_extra)
     t0 = time.time()
@@ -108,6 +137,14 @@ def run_harness(binary, args, timeout=1800, env_extra=None, check=True):
     except subprocess.TimeoutExpired:
         raise MachineryError("harness timed out after %ss: %s" % (timeout, " ".join(args)))
     if check and p.returncode != 0:
+        crash = _crash_of_code_under_test(p.stderr)
+        if crash:
+            cur = {}
+            try:
+                cur = json.load(open(current)) if current and os.path.exists(current) else {}
+            except Exception:
+                cur = {}
+            raise HarnessCrash(crash[0], crash[1], cur)
         raise MachineryError("harness failed (%d): %s\n%s\n%s" % (p.returncode, " ".join(args), p.stdout[-3000:], p.stderr[-6000:]))
     log("[vk] harness %s: %.1fs" % (" ".join(args[:6]), time.time() - t0))
     return p
